@@ -153,7 +153,8 @@ def minimise_and_confirm(prop, cand, tag, budget):
     return None, {"reproduced": False, "fresh_replay": res.get("ended"), "err": res.get("harness_error")}
 
 
-def spawn_workers(prop, seed, runs, nops, workers, tier, opts=None, digests=False, base=0, group="hashseed"):
+def spawn_workers(prop, seed, runs, nops, workers, tier, opts=None, digests=False, base=0, group="hashseed",
+                  fixed_hashseed=None):
     os.makedirs(SCRATCH, exist_ok=True)
     workers = max(1, min(workers, runs))
     per = (runs + workers - 1) // workers
@@ -162,7 +163,7 @@ def spawn_workers(prop, seed, runs, nops, workers, tier, opts=None, digests=Fals
         lo, hi = base + w * per, base + min(runs, (w + 1) * per)
         if lo >= hi:
             continue
-        hs = h64(seed, prop, group, w) % (2 ** 32)
+        hs = h64(seed, prop, group, w) % (2 ** 32) if fixed_hashseed is None else fixed_hashseed
         out = os.path.join(SCRATCH, f"w-{prop}-{group}-{os.getpid()}-{w}.jsonl")
         cmd = [PY, "-m", "efsim.worker", "--property", prop, "--seed", str(seed), "--indices", f"{lo}:{hi}",
                "--nops", str(nops), "--out", out, "--opts", json.dumps(opts or {}),
